@@ -10,7 +10,9 @@ from wasix import *
 EBADF, ENOSYS = 8, 52          # WASI errno numbers, restated from the specification
 USES = ['fd_write', 'fd_pwrite', 'fd_read', 'fd_pread', 'fd_seek', 'fd_tell', 'fd_readdir', 'fd_fdstat_get', 'fd_datasync', 'fd_sync',
         'fd_prestat_get', 'fd_prestat_dir_name', 'fd_filestat_get', 'path_open', 'path_filestat_get', 'path_rename_old',
-        'path_rename_new', 'path_unlink_file', 'path_remove_directory', 'path_create_directory', 'path_symlink', 'path_readlink']
+        'path_rename_new', 'path_unlink_file', 'path_remove_directory', 'path_create_directory', 'path_symlink', 'path_readlink',
+        # the same path calls with an ABSOLUTE guest path: the path is used as it is, the descriptor must be valid all the same
+        'path_open_abs', 'path_filestat_get_abs', 'path_create_directory_abs', 'path_readlink_abs', 'path_unlink_file_abs']
 STUBS = ['fd_advise', 'fd_allocate', 'fd_fdstat_set_flags', 'fd_filestat_set_size', 'fd_filestat_set_times', 'path_filestat_set_times', 'path_link']
 NSNAME = {0: 'wasi_snapshot_preview1', 1: 'wasi_unstable'}
 
@@ -19,6 +21,7 @@ NSNAME = {0: 'wasi_snapshot_preview1', 1: 'wasi_unstable'}
 class Table:
     def __init__(self):
         self.t = {0: ['std', True, False], 1: ['std', True, False], 2: ['std', True, False], 3: ['preopen', True, False]}
+        self.failed_open = False      # a path_open that failed after path resolution happened (it must leave no trace in the table)
 
     def live(self, x):
         return x in self.t and self.t[x][1]
@@ -27,7 +30,7 @@ class Table:
         return 'unissued' if x not in self.t else ('live-' + self.t[x][0] if self.t[x][1] else 'closed')
 
     def key(self):
-        return tuple(sorted((n, v[0], v[1], v[2]) for n, v in self.t.items()))
+        return (self.failed_open,) + tuple(sorted((n, v[0], v[1], v[2]) for n, v in self.t.items()))
 
     def issue(self, n, kind, bad):
         if self.live(n):
@@ -38,6 +41,13 @@ class Table:
         """apply one observed step; returns list of (call, xclass, outcome, text) the model rejects"""
         bad, f = [], op.split(',')
         d = dict(kv.split('=', 1) for kv in det.split() if '=' in kv)
+        if f[0] == 'om':
+            self.failed_open = True
+            if errno == 0:
+                bad.append(('path_open', 'live-preopen', 'missing-file-opened', 'path_open of the missing name "zz" without CREAT succeeded'))
+                if 'fd' in d:
+                    self.issue(int(d['fd']), 'file', [])
+            return bad
         if f[0] in ('of', 'od'):
             call, x = 'path_open', 3
         elif f[0] == 'c':
@@ -53,7 +63,7 @@ class Table:
             if errno == 0 and 'fd' in d:
                 self.issue(int(d['fd']), 'file', [])
             return bad
-        if f[0] in ('of', 'od') or call == 'path_open':
+        if f[0] in ('of', 'od') or call in ('path_open', 'path_open_abs'):
             if errno == 0:
                 b2 = []
                 self.issue(int(d['fd']), 'dir' if f[0] == 'od' else 'file', b2)
@@ -84,6 +94,8 @@ class Table:
         ops = []
         for ns in (0, 1):
             ops += ['of,%d' % ns, 'od,%d' % ns]
+            if not self.failed_open:
+                ops.append('om,%d' % ns)
             ops += ['c,%d,%d' % (x, ns) for x in xs]
             for c in uses:
                 for x in xs:
@@ -97,7 +109,8 @@ def describe(line):
     out = []
     for op in line.split():
         f = op.split(',')
-        if f[0] == 'of': out.append('%s.path_open(3,"f",CREAT,RW)' % NSNAME[int(f[1])])
+        if f[0] == 'om': out.append('%s.path_open(3,"zz" (missing),0)' % NSNAME[int(f[1])])
+        elif f[0] == 'of': out.append('%s.path_open(3,"f",CREAT,RW)' % NSNAME[int(f[1])])
         elif f[0] == 'od': out.append('%s.path_open(3,"sub",DIRECTORY)' % NSNAME[int(f[1])])
         elif f[0] == 'c': out.append('%s.fd_close(%s)' % (NSNAME[int(f[2])], f[1]))
         else: out.append('%s.%s(%s)' % (NSNAME[int(f[3])], f[1], f[2]))
